@@ -325,6 +325,11 @@ def run(chk, facts_dir, tier):
         else:
             chk.ok("R1.6", "set_len target is re-read after rollover on every path to handle_write", hb.where(sl[0][1]["line"]))
     check_truncation_marker(chk, prog, "R1.7")
+    chk.rule("R1.8", "ROLLOVER SYNCS FIRST: WriterSet::rollover calls sync() unconditionally and continues only on its success, before the writer, the live indexes and the sync "
+                     "channel are replaced: otherwise the un-synced entries of the old segment (pending_indexes hold offsets into the OLD file) are later published into the new "
+                     "segment's indexes and acknowledged appends cannot be read back")
+    from . import c20
+    c20.rollover_syncs_first(chk, prog, "R1.8")
     check_rollback_reached(chk, prog, hb, hev, hw, sl)
     return {}
 
